@@ -154,6 +154,40 @@ theorem unopFlat_itemwise {α γ : Type} (f : α → γ) (d : Nat) (hd : 0 < d) 
     simp only [hne, ne_eq, not_false_eq_true, if_true, viewLast, h0, if_false, Nat.mul_mod_right]
     rw [Nat.mul_div_cancel_left _ (by omega)]
 
+/-! ## locality: no batch-level decisions -/
+
+/-- **An output item depends only on the two items it is paired with** (no batch-level decision): changing any
+other item of either operand — same shapes — leaves `out[i]` unchanged. This is the clause a batch-level
+`.any()/.all()` switch violates. -/
+theorem binop_local {α β γ : Type} (f : α → β → γ) (d : Nat) (hd : 0 < d) (x x' : T α) (y y' : T β) (out : Shape)
+    (hx : x'.shape = x.shape) (hy : y'.shape = y.shape) (h : broadcastShapes x.shape y.shape = some out)
+    (i : List Nat) (hi : inb out i)
+    (hxi : x'.get (proj x.shape i) = x.get (proj x.shape i)) (hyi : y'.get (proj y.shape i) = y.get (proj y.shape i)) :
+    ∃ r r', binop f d d x y = some r ∧ binop f d d x' y' = some r' ∧ r'.shape = r.shape ∧ r'.get i = r.get i := by
+  obtain ⟨r, h1, h2, _, h4⟩ := broadcast_itemwise f d d hd x y out h
+  have h' : broadcastShapes x'.shape y'.shape = some out := by rw [hx, hy]; exact h
+  obtain ⟨r', h1', h2', _, h4'⟩ := broadcast_itemwise f d d hd x' y' out h'
+  refine ⟨r, r', h1, h1', by rw [h2, h2'], ?_⟩
+  rw [h4 i hi, h4' i hi, hx, hy, hxi, hyi]
+
+/-- the unary version: `out[i]` depends on `x[i]` only -/
+theorem unop_local {α γ : Type} (f : α → γ) (d : Nat) (x x' : T α) (_hs : x'.shape = x.shape) (i : List Nat)
+    (hxi : x'.get i = x.get i) : (unop f d x').get i = (unop f d x).get i := by
+  rw [(unop_itemwise f d x' i).2.2, (unop_itemwise f d x i).2.2, hxi]
+
+/-- batched = the op on the single item: a one-item (scalar-batch) call on `x[π₁ i]`, `y[π₂ i]` returns `out[i]` -/
+theorem binop_single {α β γ : Type} (f : α → β → γ) (d : Nat) (hd : 0 < d) (x : T α) (y : T β) (out : Shape)
+    (h : broadcastShapes x.shape y.shape = some out) (i : List Nat) (hi : inb out i) :
+    ∃ r r1, binop f d d x y = some r ∧
+      binop f d d ⟨[], fun _ => x.get (proj x.shape i)⟩ ⟨[], fun _ => y.get (proj y.shape i)⟩ = some r1 ∧
+      r1.shape = [] ∧ r1.get [] = r.get i := by
+  obtain ⟨r, h1, _, _, h4⟩ := broadcast_itemwise f d d hd x y out h
+  obtain ⟨r1, g1, g2, _, g4⟩ := broadcast_itemwise f d d hd (⟨[], fun _ => x.get (proj x.shape i)⟩ : T α)
+    (⟨[], fun _ => y.get (proj y.shape i)⟩ : T β) [] (show broadcastShapes [] [] = some [] by decide)
+  refine ⟨r, r1, h1, g1, g2, ?_⟩
+  rw [g4 [] (by simp [inb]), h4 i hi]
+  simp [T.get]
+
 /-! ## `LieTensor.add` (the D14 repair: expand, clone, in-place retraction) -/
 
 /-- `X.add(a)` / `X + a` for a group type equals the retraction applied item by item under broadcasting of
@@ -651,6 +685,17 @@ theorem retain_calls_wrapped (ord : List Nat) (hnd : ord.Nodup) (h3 : 3 ∉ ord)
   unfold retain
   simp only
   exact this
+
+/-- **No state leaks between calls**: after any history of contexts — any bodies, any outcomes, faults in the
+patch loop — every torch slot holds what it held before the first one. -/
+theorem retain_history (ord : List Nat) (h3 : 3 ∉ ord) : ∀ (hist : List (Body × Option Nat)) (t : Table),
+    WellHomed ord t → ∀ q, q ≠ 3 → history ord t hist q = t q
+  | [], _, _, _, _ => rfl
+  | (b, fa) :: rest, t, hw, q, hq => by
+    simp only [history]
+    have h1 := retain_restores ord h3 t hw b fa
+    rw [retain_history ord h3 rest _ (wellHomed_congr h3 h1 hw) q hq]
+    exact h1 q hq
 
 example : let t0 : Table := fun q => Fn.orig q
     let r := retain [2, 0, 1] t0 (.call 0 (.nest (.call 1 .raise) .ret)) none
